@@ -41,7 +41,9 @@ class BaseRequest:
         for err_cls in (err.__class__, except_class):
             out_err = errors_map.get(err_cls)
             if out_err:
-                err = out_err
+                # the configured error objects are shared by all requests:
+                # start from a clean traceback instead of appending to the previous ones
+                err = out_err.with_traceback(None)
                 break
         raise err
 
